@@ -139,6 +139,99 @@ impl<'a> Gen<'a> {
     }
 }
 
+impl<'a> Gen<'a> {
+    /// k nested fixed points (alternating or same kind, names possibly reused = shadowing), each level optionally
+    /// combined with its own name ("| Z": a self-supporting body), with a side formula, or negated as a whole
+    /// (the scope's polarities keep every body monotone in every enclosing name)
+    fn nested(&mut self, k: usize, sc: &Scope) -> String {
+        if k == 0 {
+            // the innermost body should talk about the enclosing fixed-point names
+            let mut best = String::new();
+            for _ in 0..8 {
+                let d = self.r.gen_range(1..=3);
+                best = self.formula(d, sc);
+                let used = sc.fix.keys().filter(|n| best.split(|c: char| !(c.is_alphanumeric() || c == '_' || c == '\'')).any(|w| w == n.as_str())).count();
+                if used >= 1 && (used >= 2 || self.r.gen_bool(0.5)) {
+                    break;
+                }
+            }
+            return best;
+        }
+        let kw = self.pick(&["lfp", "mu", "gfp", "nu"]);
+        let x = self.names[self.r.gen_range(0..self.names.len())].to_string();
+        let mut s2 = sc.clone();
+        s2.fix.insert(x.clone(), 1);
+        let op = self.pick(&["&", "|"]);
+        match self.r.gen_range(0..8) {
+            0 | 6 => format!("({} {} # {})", kw, x, self.nested(k - 1, &s2)),
+            1 => {
+                let side = self.formula(2, &s2);
+                format!("({} {} # ({} {} {}))", kw, x, self.nested(k - 1, &s2), op, side)
+            }
+            2 => {
+                let side = self.formula(2, &s2);
+                format!("({} {} # ({} {} {}))", kw, x, side, op, self.nested(k - 1, &s2))
+            }
+            3 => format!("({} {} # -({}))", kw, x, self.nested(k - 1, &flip_flag(&s2))),
+            _ => format!("({} {} # ({} {} {}))", kw, x, self.nested(k - 1, &s2), op, x),
+        }
+    }
+}
+
+impl<'a> Gen<'a> {
+    /// three binders around one body over {free names, Y, X, Z}: K1 Y # K2 X # K3 Z # (g) [op Z], every kind combination;
+    /// the body is generated with all three names positive, so every level is monotone
+    fn template3(&mut self) -> String {
+        let free: Vec<&'static str> = if self.r.gen_bool(0.3) { vec!["a", "b"] } else { vec!["b"] };
+        let bound = ["Y", "X", "Z"];
+        let mut names = free.clone();
+        names.extend(bound.iter());
+        let saved = std::mem::replace(&mut self.names, names);
+        let mut sc = Scope { fix: HashMap::new() };
+        for b in bound.iter() {
+            sc.fix.insert(b.to_string(), 1);
+        }
+        let mut g = String::new();
+        if self.r.gen_bool(0.7) {
+            // a body whose outer iteration takes several strict steps: <lit> op (Q v # W [op lit]) with W an enclosing name
+            let lit = |s: &mut Self| { let n = free[s.r.gen_range(0..free.len())]; if s.r.gen_bool(0.25) { format!("-{}", n) } else { n.to_string() } };
+            let l1 = lit(self);
+            let op1 = self.pick(&["&", "|"]);
+            let q = self.pick(&["forall", "exists", "all", "any"]);
+            let v = free[self.r.gen_range(0..free.len())];
+            let w = self.pick(&["Y", "Y", "Y", "X"]);
+            let tail = if self.r.gen_bool(0.4) { format!(" {} {}", self.pick(&["&", "|"]), lit(self)) } else { String::new() };
+            g = format!("{} {} ({} {} # {}{})", l1, op1, q, v, w, tail);
+        }
+        for _ in 0..12 {
+            if !g.is_empty() {
+                break;
+            }
+            let d = self.r.gen_range(1..=3);
+            g = self.formula(d, &sc);
+            if g.contains('Y') && (g.contains("forall") || g.contains("exists") || g.contains("all ") || g.contains("any ")) {
+                break;
+            }
+        }
+        let kws = [["lfp", "mu"], ["gfp", "nu"]];
+        let k: Vec<usize> = (0..3).map(|_| self.r.gen_range(0..2)).collect();
+        let kw = |s: &mut Self, i: usize| kws[k[i]][s.r.gen_range(0..2)];
+        let (k1, k2, k3) = (kw(self, 0), kw(self, 1), kw(self, 2));
+        let inner = match self.r.gen_range(0..4) {
+            0 => g,
+            1 => format!("({}) & Z", g),
+            _ => format!("({}) | Z", g),
+        };
+        let mid = match self.r.gen_range(0..4) {
+            0 => format!("(({} Z # {}) | X)", k3, inner),
+            1 => format!("(({} Z # {}) & (X | {}))", k3, inner, free[0]),
+            _ => format!("({} Z # {})", k3, inner),
+        };
+        self.names = saved;
+        format!("{} Y # {} X # {}", k1, k2, mid)
+    }
+}
+
 /// canonical names n1..nK by variable id
 fn canon_map(pf: &rsbdd::parser::ParsedFormula) -> HashMap<String, String> {
     pf.vars.iter().enumerate().map(|(i, v)| (v.name.as_ref().clone(), format!("n{}", i + 1))).collect()
@@ -221,8 +314,15 @@ pub fn record(args: &[String]) -> Value {
         }
         let depth = r.gen_range(2..=6);
         let text = {
+            let nest = if tries % 4 == 0 { r.gen_range(2..=3) } else { 0 };
             let mut g = Gen { r: &mut r, names };
-            g.formula(depth, &Scope { fix: HashMap::new() })
+            if nest > 0 {
+                g.nested(nest, &Scope { fix: HashMap::new() })
+            } else if tries % 4 == 2 {
+                g.template3()
+            } else {
+                g.formula(depth, &Scope { fix: HashMap::new() })
+            }
         };
         std::fs::write(progress, &text).ok();
         if let Some(rec) = formula_record(&text, max_names) {
@@ -504,6 +604,48 @@ pub fn describe(args: &[String]) -> Value {
                         break;
                     }
                 }
+                // a name listed twice (the later listing carries the larger id): the answer must still be the same
+                // function of the same named variables, with the same free variables
+                if !no_api && api.get("panic").is_none() && api["ok"] == true {
+                    if let Some(ns) = order_names.as_ref().filter(|ns| !ns.is_empty()) {
+                        let k = ns.len();
+                        let mut v: Vec<NamedSymbol> = ns.iter().enumerate().map(|(i, n)| NamedSymbol { name: Rc::new(n.clone()), id: i }).collect();
+                        let pick = item_no % k;
+                        v.push(NamedSymbol { name: Rc::new(ns[pick].clone()), id: k });
+                        if item_no % 3 == 0 {
+                            v.push(NamedSymbol { name: Rc::new(ns[(pick + 1) % k].clone()), id: k + 1 });
+                        }
+                        let mut cols = names.clone();
+                        if cols.is_empty() {
+                            cols.push("__unused0".into());
+                        }
+                        let base = guarded(|| truth_table(&pf.eval(), &cols)).ok();
+                        let dup = match parse(&text, Some(v)) {
+                            Ok(Ok(pf3)) => match guarded(|| (truth_table(&pf3.eval(), &cols), well_formed(&pf3.eval(), None))) {
+                                Ok((tt3, wf3)) => {
+                                    let mut f3: Vec<String> = pf3.free_vars.iter().map(|v| v.name.as_ref().clone()).collect();
+                                    f3.sort();
+                                    let mut f1: Vec<String> = pf.free_vars.iter().map(|v| v.name.as_ref().clone()).collect();
+                                    f1.sort();
+                                    let mut n3: Vec<String> = pf3.vars.iter().map(|v| v.name.as_ref().clone()).collect();
+                                    n3.sort();
+                                    let mut n1 = names.clone();
+                                    n1.sort();
+                                    if Some(&tt3) != base.as_ref() || !wf3 || f3 != f1 || n3 != n1 {
+                                        Some(json!({"tt": tt3, "scheme": "repeated name", "ok": wf3 && f3 == f1 && n3 == n1}))
+                                    } else {
+                                        None
+                                    }
+                                }
+                                Err(msg) => Some(json!({"panic": msg, "scheme": "repeated name"})),
+                            },
+                            _ => Some(json!({"panic": "API parse failed", "scheme": "repeated name"})),
+                        };
+                        if let Some(d) = dup {
+                            api = d;
+                        }
+                    }
+                }
                 json!({"parse_ok": true, "names": names, "ast": rename(&tree_json(&pf.bdd), &m), "api": api,
                        "free": pf.free_vars.iter().map(|v| v.name.as_ref().clone()).collect::<Vec<_>>()})
             }
@@ -624,6 +766,73 @@ pub fn dot_cases(args: &[String]) -> Value {
 }
 
 /// parse-ast <file>...: the real parser's tree for each file (generator outputs), names by id
+/// dot-big <outdir> <nv> <count>: large random diagrams (tens of thousands of nodes) exported with BDDGraph; the diagram itself
+/// is written as index arrays (no nesting) so that the orchestrator can compare the exported graph with it node for node.
+pub fn dot_big(args: &[String]) -> Value {
+    use rsbdd::bdd::{BDDEnv, BDD};
+    use rsbdd::bdd_io::BDDGraph;
+    use rsbdd::{NamedSymbol, TruthTableEntry};
+    let dir = &args[0];
+    let nv: usize = args[1].parse().expect("nv");
+    let count: usize = args[2].parse().expect("count");
+    let salt: u64 = args.get(3).map(|x| x.parse().expect("salt")).unwrap_or(0);
+    let mut r = rng(83 + 1000 * salt);
+    let mut sizes = vec![];
+    for c in 0..count {
+        let env: BDDEnv<NamedSymbol> = BDDEnv::new();
+        let syms: Vec<NamedSymbol> = (0..nv).map(|i| NamedSymbol { name: Rc::new(format!("x{}", i)), id: i }).collect();
+        fn build(env: &rsbdd::bdd::BDDEnv<rsbdd::NamedSymbol>, syms: &[rsbdd::NamedSymbol], level: usize, r: &mut StdRng) -> Rc<rsbdd::bdd::BDD<rsbdd::NamedSymbol>> {
+            if level == syms.len() {
+                return env.mk_const(r.gen_bool(0.5));
+            }
+            let h = build(env, syms, level + 1, r);
+            let l = build(env, syms, level + 1, r);
+            env.mk_choice(h, syms[level].clone(), l)
+        }
+        let root = build(&env, &syms, 0, &mut r);
+        // index the distinct nodes by address (the environment hash-conses them)
+        let mut index: HashMap<*const BDD<NamedSymbol>, i64> = HashMap::new();
+        let (mut var, mut hi, mut lo): (Vec<String>, Vec<i64>, Vec<i64>) = (vec![], vec![], vec![]);
+        fn walk(n: &Rc<BDD<NamedSymbol>>, index: &mut HashMap<*const BDD<NamedSymbol>, i64>, var: &mut Vec<String>, hi: &mut Vec<i64>, lo: &mut Vec<i64>) -> i64 {
+            match n.as_ref() {
+                BDD::False => -1,
+                BDD::True => -2,
+                BDD::Choice(t, s, f) => {
+                    if let Some(i) = index.get(&Rc::as_ptr(n)) {
+                        return *i;
+                    }
+                    let a = walk(t, index, var, hi, lo);
+                    let b = walk(f, index, var, hi, lo);
+                    let i = var.len() as i64;
+                    var.push(s.name.as_ref().clone());
+                    hi.push(a);
+                    lo.push(b);
+                    index.insert(Rc::as_ptr(n), i);
+                    i
+                }
+            }
+        }
+        let root_ix = walk(&root, &mut index, &mut var, &mut hi, &mut lo);
+        sizes.push(var.len());
+        for (fname, f) in [("Any", TruthTableEntry::Any), ("True", TruthTableEntry::True), ("False", TruthTableEntry::False)] {
+            if (c > 0 || salt > 0) && fname != "Any" {
+                continue;
+            }
+            let mut buf: Vec<u8> = vec![];
+            let ok = guarded(|| BDDGraph::new(&root, f).render_dot(&mut buf).is_ok());
+            let status = matches!(ok, Ok(true));
+            std::fs::write(format!("{}/big_{}_{}_{}.dot", dir, salt, c, fname), &buf).expect("write dot");
+            std::fs::write(
+                format!("{}/big_{}_{}_{}.json", dir, salt, c, fname),
+                json!({"ok": status, "filter": fname, "root": root_ix, "var": var, "hi": hi, "lo": lo,
+                       "order": syms.iter().map(|s| s.name.as_ref().clone()).collect::<Vec<_>>()}).to_string(),
+            )
+            .expect("write json");
+        }
+    }
+    json!({"summary": {"diagrams": count, "nv": nv, "test_nodes": sizes}})
+}
+
 pub fn parse_ast(args: &[String]) -> Value {
     let mut n = 0;
     for f in args {
